@@ -202,6 +202,10 @@ class ConfigurationMultiLevel(Configuration):
             activate_spot_statistics=activate_spot_statistics,
             nb_of_processes=nb_of_processes,
         )
+        if initial_level > maximum_level:
+            raise ValueError(
+                "the initial level must not be greater than the maximum level"
+            )
         self.convergence_rates = convergence_rates or ConvergenceRates()
         self.convergence_criteria = convergence_criteria or GilesConvergenceCriteria()
         self.initial_level = initial_level
